@@ -39,7 +39,8 @@ PROPS = {
     "C02": {
         "prefixes": ["c02"],
         "generators": [_gen_opcodes],
-        "select": lambda hs, tier, seed: _rotate(hs, tier, seed, "c02_op2_", 120),
+        "select": lambda hs, tier, seed: _rotate(hs, tier, seed, "c02_op2_", 120) if tier == "thorough" else
+        _rotate(_rotate(hs, tier, seed, "c02_op2_", 0), tier, seed, "c02_op_", 122),
         "assumptions": COMMON + [
             "the interpreter is stepped from a directly constructed state (see harness/incrate/engine.rs header), not through HintingInstance/OutlineGlyph::draw; whole-font drawing, the CFF hinter, the auto-hinter and the entire IFT client are outside the claim",
         ],
@@ -117,19 +118,22 @@ def _rotate(hs, tier, seed, prefix, n):
     """keep everything not starting with `prefix`; of those that do, a seed-rotated window of n"""
     rot = sorted([h for h in hs if h["fn"].startswith(prefix)], key=lambda h: h["fn"])
     rest = [h for h in hs if not h["fn"].startswith(prefix)]
-    if rot:
+    if rot and n > 0:
         k = (seed * n) % len(rot)
         rot = (rot + rot)[k:k + n]
+    elif n == 0:
+        rot = []
     return rest + rot
 
 
 def _c20_select(hs, tier, seed):
-    hs = _rotate(hs, tier, seed, "c02_op2_", 60)
+    hs = _rotate(hs, tier, seed, "c02_op2_", 60 if tier == "thorough" else 0)
     if tier == "quick":
-        # quick: the arithmetic-heavy hand-written harnesses + the one-step opcode queries;
-        # the generated table walkers run under C20 in the thorough tier
+        # quick (15 min wall budget): the hand-written harnesses, a seed-rotated quarter of the one-step
+        # opcode queries and a window of accessor queries; everything runs in the thorough tier
         hs = [h for h in hs if not h["fn"].startswith("c01_read_") and not h["fn"].startswith("c01_hw_")] \
-            + _rotate([h for h in hs if h["fn"].startswith("c01_hw_")], tier, seed, "c01_hw_", 30)
+            + _rotate([h for h in hs if h["fn"].startswith("c01_hw_")], tier, seed, "c01_hw_", 20)
+        hs = _rotate(hs, tier, seed, "c02_op_", 64)
     return hs
 
 
